@@ -414,6 +414,12 @@ func sameHandle(a, b an.FV) bool {
 	if (an.FV{V: fa.X, F: a.F}).Resolve(nil).V == (an.FV{V: fb.X, F: b.F}).Resolve(nil).V {
 		return true
 	}
+	// the same field of the same nested struct of the same base (x.group.f)
+	if _, nested := fa.X.(*ssa.FieldAddr); nested {
+		if _, nestedB := fb.X.(*ssa.FieldAddr); nestedB && sameHandle(an.FV{V: fa.X, F: a.F}, an.FV{V: fb.X, F: b.F}) {
+			return true
+		}
+	}
 	// the bases as addresses: a captured variable is the cell it was bound to
 	addr := func(v ssa.Value) ssa.Value {
 		if fv, ok := v.(*ssa.FreeVar); ok {
